@@ -95,6 +95,8 @@ func runC01(c *Ctx) {
 	}
 	c.Rule("C01.registration-kept", "a client's registration with the change feed survives the end of other clients' streams: removeQuery prunes a node only when it holds neither clients nor children (otherwise the relay to the remaining clients silently stops)")
 	removeQueryPrune(c, "C01.registration-kept")
+	c.Borrow("C04", map[string]string{"C04.reg-before-walk": "C01.attach-order", "C04.one-sync": "C01.one-sync"}, "a client that is registered for changes only after its initial walk misses every leaf the target adds or deletes in the part already walked: its view never equals the target's state")
+	resetRemoveAnnounce(c, "C01.reset-announce")
 	c.Borrow("C07", map[string]string{"C07.resp-faithful": "C01.resp-faithful"}, "the response handed to a subscriber wraps the whole cached notification (or a clone of the whole of it): a response rebuilt from one of its updates drops the other leaves of an atomic group from the client's view")
 	c.Borrow("C13", map[string]string{"C13.session": "C01.relay-session"}, "every ended stream must reset the target's cache state before the next session, or leaves that vanished during the gap stay in the cache and in every client")
 	// ---- reg
